@@ -36,9 +36,9 @@ type Client struct {
 }
 
 func Dial(addr string) (*Client, error) {
-	nc, err := net.DialTimeout("tcp", addr, 5*time.Second)
+	nc, err := dialTCP(addr)
 	if err != nil {
-		return nil, err
+		return nil, &ErrTCPConnect{err}
 	}
 	if tc, ok := nc.(*net.TCPConn); ok {
 		tc.SetNoDelay(true)
@@ -49,13 +49,43 @@ func Dial(addr string) (*Client, error) {
 	return c, nil
 }
 
-// DialTLS connects through TLS (the handshake is bounded by 5 s).
-func DialTLS(addr string, cfg *tls.Config) (*Client, error) {
-	nc, err := tls.DialWithDialer(&net.Dialer{Timeout: 5 * time.Second, Deadline: time.Now().Add(5 * time.Second)}, "tcp", addr, cfg)
-	if err != nil {
-		return nil, err
+// dialTCP connects with a 5 s bound and tries again (twice) when the connect merely timed out: with the connection
+// churn of this harness the kernel occasionally drops SYNs on loopback (TIME_WAIT bucket overflow, ListenDrops without
+// ListenOverflows), which says nothing about the peer. A refused connection is reported at once.
+func dialTCP(addr string) (net.Conn, error) {
+	var nc net.Conn
+	var err error
+	for try := 0; try < 3; try++ {
+		nc, err = net.DialTimeout("tcp", addr, 5*time.Second)
+		if err == nil {
+			return nc, nil
+		}
+		if ne, ok := err.(net.Error); !ok || !ne.Timeout() {
+			return nil, err
+		}
 	}
-	_ = nc.SetDeadline(time.Time{})
+	return nil, err
+}
+
+// ErrTCPConnect wraps a failure of the TCP connect itself (as opposed to a TLS handshake that does not complete).
+type ErrTCPConnect struct{ Err error }
+
+func (e *ErrTCPConnect) Error() string { return "tcp connect: " + e.Err.Error() }
+func (e *ErrTCPConnect) Unwrap() error { return e.Err }
+
+// DialTLS connects through TLS (TCP connect and handshake are bounded by 5 s each).
+func DialTLS(addr string, cfg *tls.Config) (*Client, error) {
+	raw, err := dialTCP(addr)
+	if err != nil {
+		return nil, &ErrTCPConnect{err}
+	}
+	nc := tls.Client(raw, cfg)
+	_ = raw.SetDeadline(time.Now().Add(5 * time.Second))
+	if err := nc.Handshake(); err != nil {
+		raw.Close()
+		return nil, fmt.Errorf("tls handshake: %w", err)
+	}
+	_ = raw.SetDeadline(time.Time{})
 	c := &Client{nc: nc, fence: 30000}
 	c.cond = sync.NewCond(&c.mu)
 	go c.read()
